@@ -465,6 +465,13 @@ uint64_t usim_now(void) { return R.now_ns; }
 uint64_t usim_seq(void) { return ++R.seq; }
 uint64_t usim_step(void) { return R.step; }
 
+int usim_live_threads(void) {
+  int n = 0;
+  for (int i = 0; i < R.nthreads; ++i)
+    if (R.thr[i].st != S_FINISHED && R.thr[i].st != S_FREE) ++n;
+  return n;
+}
+
 void usim_point(void) {
   if (!sim_on()) return;
   sched_point(OP_HARNESS, nullptr, false);
